@@ -223,7 +223,7 @@ pub fn h_edits() {
         }
         1 => {
             // replace the name by an arbitrary short string
-            let mut l = sym::any_str("name", "set:AB_=x", 0, 3).as_bytes().to_vec();
+            let mut l = sym::any_str("name", "set:AB_=x", 0, sym::bound(3, 4)).as_bytes().to_vec();
             l.extend_from_slice(b"=v");
             ls[pos] = l;
         }
@@ -238,7 +238,7 @@ pub fn h_edits() {
         4 => {
             let which = if sym::choose("which", 2) == 0 { "FILE_SIZE=" } else { "SIZE_PKG=" };
             let mut l = which.as_bytes().to_vec();
-            l.extend_from_slice(sym::any_str("num", "set:-+09x ", 0, 3).as_bytes());
+            l.extend_from_slice(sym::any_str("num", "set:-+09x ", 0, sym::bound(3, 4)).as_bytes());
             ls.insert(pos, l);
         }
         5 => {
